@@ -727,31 +727,42 @@ def rule_iter_pyx(ctx, m):
             if f is None:
                 raise AnalysisError('anchor vanished: %s.%s' % (pyxname, fn))
             facts = {}
+
+            def arg(call, pos, name):
+                """argument of a call given positionally or by keyword"""
+                for k_, v_ in call[3]:
+                    if k_ == name:
+                        return v_
+                return call[2][pos] if len(call[2]) > pos else None
             for s in walk_stmts(f.body):
                 if s.k == 'assign' and s.target[0] == 'var' and s.target[1].startswith('block_') and s.value[0] == 'idx':
                     facts[s.target[1]] = fmt(s.value)
-                if s.k == 'decl' and s.name == 'dtwblock' and s.init is not None:
-                    facts['ctor'] = fmt(s.init)
+                if s.k == 'decl' and s.init is not None and s.init[0] == 'call' and dotted(s.init[1]) == 'DTWBlock':
+                    facts['ctor'] = tuple(fmt(arg(s.init, k_, nm)) if arg(s.init, k_, nm) is not None else None for k_, nm in enumerate(('rb', 're', 'cb', 'ce')))
+                    facts['blockvar'] = s.name
                 if s.k == 'if':
                     for t in s.then:
-                        if t.k == 'expr' and (dotted(t.value[1]) or '') == 'dtwblock.triu_set' if t.value[0] == 'call' else False:
-                            facts['triu'] = (fmt(s.cond), fmt(t.value))
-                        if t.k == 'expr' and t.value[0] == 'call' and (dotted(t.value[1]) or '') in ('dtwblock.re_set', 'dtwblock.ce_set'):
-                            facts[dotted(t.value[1])] = (fmt(s.cond), fmt(t.value))
+                        if t.k == 'expr' and t.value[0] == 'call' and t.value[1][0] == 'attr' and t.value[1][2] == 'triu_set':
+                            facts['triu'] = (fmt(s.cond), fmt(arg(t.value, 0, 'value')))
+                        if t.k == 'expr' and t.value[0] == 'call' and t.value[1][0] == 'attr' and t.value[1][2] in ('re_set', 'ce_set'):
+                            facts[t.value[1][2]] = (s.cond, arg(t.value, 0, 'value'), t.value[1][1])
             shapes[(pyxname, fn)] = facts
             want = {'block_rb': 'block[0][0]', 'block_re': 'block[0][1]', 'block_cb': 'block[1][0]', 'block_ce': 'block[1][1]',
-                    'ctor': 'DTWBlock(rb=block_rb, re=block_re, cb=block_cb, ce=block_ce)'}
+                    'ctor': ('block_rb', 'block_re', 'block_cb', 'block_ce')}
             for k, v in want.items():
                 ctx.check(facts.get(k) == v, 'R-ITER', mod.path, fn, 'block decoding %s' % k,
                           'the block tuple ((rb, re), (cb, ce)) must be decoded as %s = %s; found %s' % (k, v, facts.get(k)), f.line)
             tr = facts.get('triu')
-            ok = tr is not None and 'block[2] is False' in tr[0] and tr[1] == 'dtwblock.triu_set(False)'
+            ok = tr is not None and 'block[2] is False' in tr[0] and tr[1] == 'False'
             ctx.check(ok, 'R-ITER', mod.path, fn, 'block triu flag', 'triu must be switched off exactly when the third block element is literally False; found %s' % (tr,), f.line)
-            for k in ('dtwblock.re_set', 'dtwblock.ce_set'):
+            nlen = ('call', ('var', 'len'), (('var', f.args[0].name if hasattr(f.args[0], 'name') else f.args[0]),), ())
+            nvars = {t.target for t in walk_stmts(f.body) if t.k == 'assign' and t.target[0] == 'var' and t.value == nlen}
+            for k in ('re_set', 'ce_set'):
                 v = facts.get(k)
-                fld = k.split('.')[1][:2]
-                ok = v is not None and v[0] == '(dtwblock.%s == 0)' % fld and v[1] == '%s(len(cur))' % k
-                ctx.check(ok, 'R-ITER', mod.path, fn, 'block completion %s' % fld, '`%s == 0` means "no block": it must be completed with the number of series; found %s' % (fld, v), f.line)
+                fld = k[:2]
+                ok = v is not None and v[0] == ('bin', '==', ('attr', v[2], fld), ('num', 0)) and (v[1] == nlen or v[1] in nvars)
+                ctx.check(ok, 'R-ITER', mod.path, fn, 'block completion %s' % fld, '`%s == 0` means "no block": it must be completed with the number of series; found %s'
+                          % (fld, (fmt(v[0]), fmt(v[1])) if v else None), f.line)
     ctx.count('pyx block decoders', len(shapes))
 
 
